@@ -5,6 +5,6 @@ id=$1; tier=${2:-quick}
 [ -n "$VERIF_TIER" ] && [ -z "$2" ] && tier=$VERIF_TIER
 flavor=""
 bin=$(/verif/scripts/build.sh full) || { echo "HARNESS-ERROR property=$id build failed"; exit 2; }
-if [ "$id" = "C07" ]; then /verif/scripts/build.sh full race >/dev/null || { echo "HARNESS-ERROR property=$id race build failed"; exit 2; }; fi
+if [ "$id" = "C07" ] || [ "$id" = "C17" ] || [ "$id" = "C18" ] || [ "$id" = "C06" ] || [ "$id" = "C04" ] || [ "$id" = "C03" ] || [ "$id" = "C16" ]; then /verif/scripts/build.sh full race >/dev/null || { echo "HARNESS-ERROR property=$id race build failed"; exit 2; }; fi
 cd /verif
 exec "$bin" check "$id" "$tier"
